@@ -136,13 +136,24 @@ fn case(tier: Tier, rng: &mut Rng, rep: &mut Report) {
         if strip_which != 1 {
             vs.pop();
         }
+    } else if rng.chance(0.2) {
+        // a blank line after the last row (as editors and exports leave behind)
+        if strip_which != 2 {
+            es.push('\n');
+        }
+        if strip_which != 1 {
+            vs.push('\n');
+        }
     }
+    // declared counts are size hints: exact, or generous (a line count that includes the header, a round number)
+    let generous = explicit && rng.chance(0.3);
+    let pad = if generous { rng.urange(1, 5) } else { 0 };
     if write_text(&ep, &es, gzip).is_err() || write_text(&vp, &vs, gzip).is_err() {
         rep.inconclusive("could not write network files".into());
         remove_dir(&dir);
         return;
     }
-    let (ne, nv) = if explicit { (Some(net.ne()), Some(net.nv())) } else { (None, None) };
+    let (ne, nv) = if explicit { (Some(net.ne() + pad), Some(net.nv() + pad)) } else { (None, None) };
     let loaded = catch(|| Graph::from_files(&ep, &vp, ne, nv, Some(false)));
     remove_dir(&dir);
     let mode = format!("{}{}", if gzip { "gzip" } else { "plain" }, if explicit { "+counts" } else { "+scan" });
